@@ -33,6 +33,8 @@ def families(ctx, quick):
         fams.append(("loop-sequences #%d" % k, lang.two_loops_program(rng), ("vm", "native")))
         fams.append(("struct-order #%d" % k, lang.struct_order_program(rng), ("vm", "native")))
         fams.append(("scoping-in-functions #%d" % k, lang.scoping_shadowed(rng), ("vm", "native")))
+        fams.append(("intern-churn #%d" % k, lang.intern_churn_program(rng), ("vm", "native")))
+        fams.append(("order-in-calls #%d" % k, lang.order_in_calls_shadowed(rng), ("vm", "native")))
     fams.append(("argument-order (F-C02-2)", lang.ARG_ORDER_WITNESS, ("vm", "native")))
     fams.append(("array-alias (F-C02-5)", lang.ALIAS_WITNESS, ("vm", "native")))
     fams.append(("strconv", lang.strconv_program(rng.sample(vals, 8) + [-9223372036854775808, -1000000000000000000]), ("vm", "native")))
